@@ -101,13 +101,7 @@ Theorem C15_atomic : forall f pid d ov p k f' e,
   (f' d = f d \/ (k = FPost /\ f' d = File (spec_render p))) /\
   (k <> FRemove -> f' (tmp pid d) = Absent) /\
   (forall q, q <> d -> q <> tmp pid d -> f' q = f q).
-Proof.
-  intros f pid d ov p k f' e Hab H.
-  destruct (headline_atomic write_steps C15_gen_writer_ok f pid d ov p k f' e Hab H) as (H1 & H2 & H3).
-  repeat split; auto.
-  intros Hk. apply H2. apply (may_leave_total write_steps k C15_gen_cleanup_total).
-  destruct k; simpl; auto; congruence.
-Qed.
+Proof. exact (headline_atomic_total write_steps C15_gen_writer_ok C15_gen_cleanup_total). Qed.
 Print Assumptions C15_atomic.
 
 (* 2'. the same against an adversary that may fail any set of crash points at once *)
@@ -135,11 +129,7 @@ Theorem C15_no_leftover : forall f pid d ov p adv f' r,
   f (tmp pid d) = Absent ->
   a_remove adv = false ->
   run_writer write_steps (mkenv d (tmp pid d) ov p adv) f = (f', r) -> f' (tmp pid d) = Absent.
-Proof.
-  intros f pid d ov p adv f' r Hab Hm H.
-  apply (headline_temp_gone write_steps C15_gen_writer_ok f pid d ov p adv f' r Hab); [|exact H].
-  unfold may_leave_temp. rewrite C15_gen_cleanup_total. exact Hm.
-Qed.
+Proof. exact (headline_no_leftover_total write_steps C15_gen_writer_ok C15_gen_cleanup_total). Qed.
 Print Assumptions C15_no_leftover.
 
 (* 5. nothing but the destination and the temporary is ever touched (no condition at all) *)
